@@ -133,7 +133,7 @@ def run_scheduled(ctx, graph, values, choices=(), *, adversarial=False, runner=N
         return Outcome("deadlock", None, d), sched
     except HarnessError:
         raise
-    except Exception as e:  # noqa: BLE001
+    except (Exception, asyncio.CancelledError) as e:  # noqa: BLE001
         return Outcome("raised", None, e), sched
     finally:
         ctx.sched = None
